@@ -367,5 +367,25 @@ def rule_suspend_protocol(ctx, crate, rule="R-SUSPEND-PROTOCOL"):
             for c in b.calls(K.PDT_DRAWABLE):
                 ctx.check(is_const(c.args[1], True), rule, "clear-forced", b.name, c.loc(),
                           "the clearing drawable is forced", "the clear before the closure can be rate limited away", cfg)
-    # the multi path of BarState::suspend delegates to MultiState::suspend
-    ctx.floor(rule, n, 2, cfg, "suspend closures")
+    # the closure runs only while the (bar or multi) state is exclusively held: it is invoked only by the two state-level
+    # functions above (their `&mut self` exists only under the lock); the handle-level suspend() functions forward it
+    # there and never call it themselves — otherwise another thread can redraw the bars while the closure prints
+    for b in K.lib_bodies(crate):
+        if K.meth(K.owner_fn(crate, b)) != "suspend":
+            continue
+        for u in [c for c in b.calls(r"std::ops::FnOnce::call_once", r"std::ops::FnMut::call_mut", r"std::ops::Fn::call") if c.callee.get("self_head", "").startswith("param:")]:
+            n += 1
+            recv = b.locals[1]["ty"] if b.arg_count >= 1 else ""
+            ok = b.name in ("multi::MultiState::suspend", "state::BarState::suspend") and recv.startswith("&mut")
+            ctx.check(ok, rule, "closure-under-state-lock", b.name, u.loc(),
+                      "the user closure is invoked by the state-level suspend (exclusive `&mut` state, i.e. under the lock)",
+                      "the suspend closure is invoked in %s, without the bar/multi state being held: a concurrent draw repaints the bars and the closure's output is erased by the redraw" % b.name, cfg)
+    for fn, down in ((r"multi::MultiProgress::suspend", r"multi::MultiState::suspend"), (r"progress_bar::ProgressBar::suspend", r"state::BarState::suspend")):
+        b = K.find_one(ctx, crate, rule, fn)
+        if not b:
+            continue
+        cs = b.calls(down)
+        okd = len(cs) == 1 and b.must_pass([0], [cs[0].bb]) and bool(b.slice_args(cs[0]).params() - {1})
+        ctx.check(okd, rule, "delegates:%s" % K.meth(fn), b.name, K.fn_loc(b), "%s forwards its closure to %s on every path" % (fn, down),
+                  "%s does not hand its closure to %s (clear / run / redraw are no longer one critical section)" % (fn, down), cfg)
+    ctx.floor(rule, n, 4, cfg, "suspend closures")
